@@ -72,8 +72,15 @@ class KDTree:
             if leaf.size <= max_leaf_size: # the leaf has the correct size -> add it to the tree
                 self.nodes.append(leaf)
             else: # the leaf needs to be split
-                # split the points according to the current axis
-                split_value, pts_less, pts_more = self._split_points(leaf.points, leaf.split_axis)
+                # split the points according to the current axis (or the next one on which the points differ)
+                for _try in range(self.dim):
+                    split_axis = (leaf.split_axis + _try)%self.dim
+                    split_value, pts_less, pts_more = self._split_points(leaf.points, split_axis)
+                    if pts_less.size>0 and pts_more.size>0: break
+                else: # all the points of the leaf coincide: it cannot be split any further
+                    self.nodes.append(leaf)
+                    continue
+                leaf.split_axis = split_axis
                 
                 # we create a new node to replace the original leaf and append two leaves that will be its children
                 node = KDTree.Node(leaf.id, leaf.split_axis, parent=leaf.parent, bb=leaf.bb, split_value=split_value)
@@ -103,6 +110,8 @@ class KDTree:
         pts_ax = self.points[pt_idx,axis] # 1D array of the considered coordinate to split 
         pivot = self._find_pivot(pts_ax)
         pivot_filter = pts_ax <= pivot
+        if pivot_filter.all(): # the pivot is the maximum: split strictly below it instead
+            pivot_filter = pts_ax < pivot
         idx_less = np.extract(pivot_filter, pt_idx)
         idx_more = np.extract(~pivot_filter, pt_idx)
         return pivot, idx_less, idx_more
